@@ -140,6 +140,21 @@ func (r *Run) Explore(name string, fn *ssa.Function) *HarnessResult {
 	witnessEvery := 1
 	nw := 0
 	var wg sync.WaitGroup
+	stopTick := make(chan bool)
+	go func() {
+		tk := time.NewTicker(20 * time.Second)
+		defer tk.Stop()
+		for {
+			select {
+			case <-stopTick:
+				return
+			case <-tk.C:
+				mu.Lock()
+				fmt.Fprintf(os.Stderr, "[%s] %.0fs paths=%d pending=%d status=%v\n", name, time.Since(t0).Seconds(), hr.Paths, len(stack), hr.Status)
+				mu.Unlock()
+			}
+		}
+	}()
 	workers := r.Cfg.Workers
 	for w := 0; w < workers; w++ {
 		wg.Add(1)
@@ -149,9 +164,15 @@ func (r *Run) Explore(name string, fn *ssa.Function) *HarnessResult {
 			if err != nil {
 				panic(err)
 			}
+			if lf := os.Getenv("GOSYM_SMTLOG"); lf != "" && w == 0 {
+				f, _ := os.Create(lf)
+				solver.Log = f
+				defer f.Close()
+			}
 			defer solver.Close()
 			m := xexec.NewMachine(r.P, solver)
 			m.Debug = r.Cfg.Debug
+			m.DebugDepth = 6
 			m.WantScripts = r.Cfg.KeepScripts
 			for {
 				mu.Lock()
@@ -254,6 +275,9 @@ func (r *Run) Explore(name string, fn *ssa.Function) *HarnessResult {
 			r.Stats.AssertQueries += m.Stats.AssertQueries
 			r.Stats.Unknown += m.Stats.Unknown
 			r.Stats.Unwind += m.Stats.Unwind
+			r.Stats.CacheHits += m.Stats.CacheHits
+			r.Stats.Summaries += m.Stats.Summaries
+			r.Stats.SummaryHits += m.Stats.SummaryHits
 			for k, v := range m.Stats.FuncsEncoded {
 				r.FuncsEnc[k] += v
 			}
@@ -264,6 +288,7 @@ func (r *Run) Explore(name string, fn *ssa.Function) *HarnessResult {
 		}(w)
 	}
 	wg.Wait()
+	close(stopTick)
 	hr.WallS = time.Since(t0).Seconds()
 	return hr
 }
